@@ -142,10 +142,13 @@ BUCKETS = [
     (r"no method named `into_bytes` found for struct `Vec<u8>`", "raw-strings-into-bytes-on-vec"),
     (r"conflicting implementations of trait `(Future|Stream)Payload`", "duplicate-payload-impl"),
     (r"the name `Guest\w*` is defined multiple times", "type-named-guest-collides-with-trait"),
+    (r"match bindings cannot shadow tuple structs", "type-named-like-prelude-variant"),
 ]
 DIRECTED = [
     ("world-level-map-import", "w", "package a:b;\nworld w { import f: func(m: map<u32, string>) -> u32; }\n", ["default"]),
     ("raw-strings-two-byte-futures", "w", "package a:b;\ninterface i { f: func(a: future<string>, b: future<list<u8>>); }\nworld w { import i; }\n", ["raw-strings"]),
+    ("keyword-package-names", "w", "package true:for;\ninterface i { f: func(); }\nworld w { import i; export i; }\n", ["default"]),
+    ("type-named-none", "w", "package a:b;\ninterface i { flags none { a, b } f: func(x: option<u8>) -> none; }\nworld w { import i; export i; }\n", ["default"]),
     ("type-named-guest", "w", "package a:b;\ninterface i { flags guest { a, b } f: func(x: guest) -> guest; }\nworld w { export i; }\n", ["default"]),
 ]
 
